@@ -178,6 +178,7 @@ class Run:
         """One Engine A obligation: harness `function` over `sources` (paths). Returns Ob."""
         ob = Ob(oid, 'A:cbmc', functions or [function], bounds, what)
         ob.stubs = list(stubs); ob.assumptions = list(assumptions)
+        ob.harness = dict(sources=list(sources), function=function, defines=list(defines))
         timeout = timeout or (150 if self.tier == 'quick' else 900)
         with self.sem:
             try:
